@@ -23,6 +23,7 @@ type pcase struct {
 	Keep    []string       `json:"keep"`
 	Exp     []vlib.AAbs    `json:"exp"`
 	Cls     []string       `json:"cls"`
+	SCls    [][]string     `json:"scls"` // per sample: its own classes and those of the samples it shares a location with
 }
 
 var (
@@ -58,6 +59,7 @@ func alternation(names []string) string {
 }
 
 func seqDiff(exp []vlib.AAbs, got []vlib.AAbs) string {
+	badSample = -1
 	if len(exp) != len(got) {
 		return fmt.Sprintf("%d samples, want %d (the number of samples must not change)", len(got), len(exp))
 	}
@@ -65,19 +67,29 @@ func seqDiff(exp []vlib.AAbs, got []vlib.AAbs) string {
 		e := conc.ExpKey(exp[i].Key).Canon() + fmt.Sprint(exp[i].Vals)
 		g := got[i].Key.Canon() + fmt.Sprint(got[i].Vals)
 		if e != g {
+			badSample = i
 			return fmt.Sprintf("sample %d:\n got  %s\n want %s", i, g, e)
 		}
 	}
 	return ""
 }
 
+// badSample is the index of the first differing sample found by the last seqDiff call (-1: the count differs)
+var badSample = -1
+
 // classify names the class of the failing input as computed by the specification
 // (Prune.tla Classes): "plain" when the location-granular mechanism can follow the definition.
 func classify(c *pcase, d string) string {
-	if len(c.Cls) == 0 {
+	cls := c.Cls
+	if badSample >= 0 && badSample < len(c.SCls) {
+		cls = c.SCls[badSample]
+	} else if badSample < 0 {
+		cls = nil // a changed number of samples is never excused
+	}
+	if len(cls) == 0 {
 		return "plain"
 	}
-	s := append([]string{}, c.Cls...)
+	s := append([]string{}, cls...)
 	sort.Strings(s)
 	return strings.Join(s, "+")
 }
